@@ -27,23 +27,45 @@ def q2f(q):
     from fractions import Fraction
     return float(Fraction(q[0], q[1]))
 
+def _mk_solver(kind):
+    if kind == 'default': return z3.Solver()
+    if kind == 'nlsat': return z3.Then('simplify', 'purify-arith', 'qfnra-nlsat').solver()
+    return z3.Tactic(kind).solver()
+
 def prove(name, assumptions, claim, timeout_ms=20000, model_vars=None, key=None, detail='', tactic=None, sample=False):
-    """discharged iff assumptions AND NOT claim is unsat.  sat -> candidate with a model of model_vars.  unknown -> undecided."""
-    so = z3.Solver() if tactic is None else z3.Tactic(tactic).solver()
-    so.set('timeout', timeout_ms)
-    so.add(*assumptions); so.add(z3.Not(claim))
-    t0 = time.time(); r = so.check(); dt = time.time() - t0
+    """discharged iff assumptions AND NOT claim is unsat.  sat -> candidate with a model of model_vars.  unknown -> undecided.
+       tactic='nra': portfolio (default solver for a fifth of the budget, then simplify+purify-arith+nlsat) for polynomial/rational identities"""
+    plan = [('default', timeout_ms)] if tactic is None else [('nlsat', timeout_ms), ('default', max(2000, timeout_ms // 5))] if tactic == 'nra' else [(tactic, timeout_ms)]
+    dt = 0.0; r = z3.unknown; so = None; used = ''
+    for kind, tmo in plan:
+        so = _mk_solver(kind); so.set('timeout', int(tmo))
+        so.add(*assumptions); so.add(z3.Not(claim))
+        t0 = time.time()
+        try: r = so.check()
+        except z3.Z3Exception: r = z3.unknown
+        dt += time.time() - t0; used = kind
+        if r != z3.unknown: break
     smp = None
     if sample:
-        txt = so.to_smt2(); smp = {'obligation': name, 'smtlib_head': txt[:600], 'smtlib_bytes': len(txt), 'result': str(r)}
-    if r == z3.unsat: return ob(name, 'discharged', solver_s=dt, key=key, detail=detail, sample=smp)
+        txt = so.to_smt2() if hasattr(so, 'to_smt2') else ''; smp = {'obligation': name, 'smtlib_head': txt[:600], 'smtlib_bytes': len(txt), 'result': str(r), 'solver': 'z3/' + used}
+    if r == z3.unsat: return ob(name, 'discharged', solver_s=dt, key=key, detail=detail, sample=smp, solver='z3/' + used)
     if r == z3.sat:
         m = so.model(); mv = {}
         for k, t in (model_vars or {}).items():
             if isinstance(t, (list, tuple)): mv[k] = [model_value(m, x) if llsym.is_sym(x) else x for x in t]
             else: mv[k] = model_value(m, t) if llsym.is_sym(t) else t
-        return ob(name, 'candidate', solver_s=dt, model=mv, key=key, detail=detail, sample=smp)
-    return ob(name, 'undecided', solver_s=dt, key=key, detail=(detail + ' solver: ' + so.reason_unknown()).strip(), sample=smp)
+        return ob(name, 'candidate', solver_s=dt, model=mv, key=key, detail=detail, sample=smp, solver='z3/' + used)
+    try: why = so.reason_unknown()
+    except Exception: why = 'unknown'
+    return ob(name, 'undecided', solver_s=dt, key=key, detail=(detail + ' solver: ' + why).strip(), sample=smp, solver='z3/' + used)
+
+def alg_assumptions(st):
+    """minimal sound hypotheses for algebraic identities on a path: every executed divisor is non-zero (proved separately by divisor_obligations)
+       and the defining equations of the square-root witnesses; the comparison outcomes of the path are dropped (weaker hypothesis => still sound)"""
+    out = [e[1] != 0 for e in st.events if e[0] == 'div']
+    for d in st.defs:
+        if d[0] == 'sqrt': out += [d[1] >= 0, d[1] * d[1] == d[2]]
+    return out
 
 def check_sat(name, assumptions, timeout_ms=20000, key=None):
     """vacuity witness: the assumptions (path condition + precondition) must be satisfiable"""
